@@ -92,6 +92,17 @@ Theorem C05_decode_rejects : forall cf s rst off pk d,
   exists c i, parse_str (mkEnv RSlice TEof cf) (mkSt (flat_map render_piece s ++ 34 :: rst) off pk d) = Err c i.
 Proof. exact parse_str_rejects. Qed.
 
+(* both in one statement *)
+Theorem C05_decode_decides : forall cf s rst off pk d,
+  str_ok s = true ->
+  match str_text s with
+  | Some b => parse_str (mkEnv RSlice TEof cf) (mkSt (flat_map render_piece s ++ 34 :: rst) off pk d)
+              = Ok (b, forallb (fun p => match p with PRaw _ => true | _ => false end) s,
+                    mkSt rst (off + length (flat_map render_piece s) + 1) false d)
+  | None => exists c i, parse_str (mkEnv RSlice TEof cf) (mkSt (flat_map render_piece s ++ 34 :: rst) off pk d) = Err c i
+  end.
+Proof. exact parse_str_decides. Qed.
+
 (* soundness: whatever is accepted is a well-formed literal and the result is its text *)
 Theorem C05_decode_sound : forall cf s0 b bw s1,
   Forall (fun x => (x < 256)%N) (rest s0) ->
@@ -324,6 +335,7 @@ Print Assumptions C05_roundtrip_reader.
 Print Assumptions C05_hex_groups.
 Print Assumptions C05_decode.
 Print Assumptions C05_decode_rejects.
+Print Assumptions C05_decode_decides.
 Print Assumptions C05_decode_sound.
 Print Assumptions C05_literal_unique.
 Print Assumptions C05_reject_control.
